@@ -336,7 +336,16 @@ def register(reg, stubs, world):
 
     def truthy_list(eng, st, v):
         return z3.And(v != NONE, z3.Length(eng.seq_of(st, v)) > 0)
+    def enforce_cases(cx):
+        eng = cx.eng
+        c, rule = cx['creds'], cx['rule']
+        is_ctx = z3.And(V.is_obj(c), clsof(V.ref(c)) == eng.cid('context.RequestContext'))
+        is_map = z3.And(V.is_obj(c), z3.Or(clsof(V.ref(c)) == eng.cid('dict'), clsof(V.ref(c)) == eng.cid('$PolicyValues')))
+        name = V.is_str(rule)
+        return [z3.And(is_ctx, name), z3.And(is_ctx, z3.Not(name)), z3.And(is_map, name), z3.And(is_map, z3.Not(name)),
+                z3.Not(z3.Or(is_ctx, is_map))]
     reg.add(Contract('policy:Enforcer.enforce', pre=enforce_pre, post=enforce_post, axioms=enforce_axioms,
+                     cases=enforce_cases, ncases=5,
                      raises=('InvalidContextObject', 'InvalidScope', 'PolicyNotAuthorized', '$CallerException') + EVAL_RAISES,
                      modifies=LOAD_MODS, allocates=True, props=('C03', 'C07', 'C08', 'C14'),
                      doc='loads, normalises credentials, gates on scope, evaluates the governing check once, then '
